@@ -160,6 +160,10 @@ func genC04(seed uint64, withSpec bool) *Scenario {
 			n = 6
 		}
 	}
+	floodAt := -1
+	if r.Chance(25) {
+		floodAt = r.Intn(n) // somewhere in the history hundreds of distinct patterns are compiled
+	}
 	total := wAgainst + wRec + wNR + wParam + wSpec + wSwag
 	ops := make([]Op, 0, n)
 	for i := 0; i < n; i++ {
@@ -178,6 +182,9 @@ func genC04(seed uint64, withSpec bool) *Scenario {
 			op = v.swaggerOp(g)
 		default:
 			op = specOp(r)
+		}
+		if i == floodAt {
+			op = Op{Kind: KFlood, Str: "fl_", LL: pick(r, []int{140, 300})}
 		}
 		op.UID = uint32(i + 1)
 		ops = append(ops, op)
